@@ -532,52 +532,83 @@ def chunk_last(ctx, rr):
                         if len(others) == 1:
                             N_ = others[0]
                             ok = txt in ('%s==%s-1' % (I, N_), '%s-1==%s' % (N_, I), '%s+1==%s' % (I, N_), '%s>=%s-1' % (I, N_))
-                    if ok is None and isinstance(f.iter, ast.Call) and isinstance(f.iter.func, ast.Name) and f.iter.func.id == 'range' and len(f.iter.args) == 3 \
+                    if ok is None and isinstance(f.iter, ast.Call) and isinstance(f.iter.func, ast.Name) and f.iter.func.id == 'range' and 1 <= len(f.iter.args) <= 3 \
                             and isinstance(f.target, ast.Name) and isinstance(flag, ast.Compare) and len(flag.ops) == 1:
-                        # strided form `for start in range(0, L, size)`: the round is the last one iff start + size >= L
+                        # general form, decided on polynomials over the loop variable and the opaque terms of the bounds:
+                        # `for I in range(A, B, S)` (A, S default 0, 1): the round is the last one iff I + S >= B; an equality test
+                        # `I + S == B` says the same only when B - A is a multiple of S by construction
                         from ..dataflow import resolve_locals as _rl
                         I = f.target.id
 
-                        def lin(e):
+                        def poly(e):
                             if isinstance(e, ast.Constant) and isinstance(e.value, int) and not isinstance(e.value, bool):
-                                return {'': e.value}
+                                return {(): e.value} if e.value else {}
+                            if isinstance(e, ast.UnaryOp) and isinstance(e.op, ast.USub):
+                                a_ = poly(e.operand)
+                                return None if a_ is None else {k_: -v_ for k_, v_ in a_.items()}
                             if isinstance(e, ast.BinOp) and isinstance(e.op, (ast.Add, ast.Sub)):
-                                a_, b_ = lin(e.left), lin(e.right)
+                                a_, b_ = poly(e.left), poly(e.right)
                                 if a_ is None or b_ is None:
                                     return None
                                 sg = 1 if isinstance(e.op, ast.Add) else -1
                                 o_ = dict(a_)
                                 for k_, v_ in b_.items():
                                     o_[k_] = o_.get(k_, 0) + sg * v_
-                                return o_
-                            if isinstance(e, (ast.Name, ast.Call, ast.Attribute)):
-                                return {ast.unparse(e).replace(' ', ''): 1}
-                            return None
-                        a0, a1, a2 = [_rl(P, u, x, keep=(I,)) for x in f.iter.args]
-                        fl = _rl(P, u, flag, keep=(I,))
-                        L_, R_ = lin(fl.left), lin(fl.comparators[0])
-                        e0, eL, eS = lin(a0), lin(a1), lin(a2)
-                        if L_ is not None and R_ is not None and e0 == {'': 0} and eL is not None and eS is not None:
-                            op = fl.ops[0]
-                            # normalise to  D >= 0
-                            def sub(x_, y_, c_=0):
-                                o_ = dict(x_)
-                                for k_, v_ in y_.items():
-                                    o_[k_] = o_.get(k_, 0) - v_
-                                o_[''] = o_.get('', 0) + c_
                                 return {k_: v_ for k_, v_ in o_.items() if v_}
+                            if isinstance(e, ast.BinOp) and isinstance(e.op, ast.Mult):
+                                a_, b_ = poly(e.left), poly(e.right)
+                                if a_ is None or b_ is None:
+                                    return None
+                                o_ = {}
+                                for k1, v1 in a_.items():
+                                    for k2, v2 in b_.items():
+                                        k_ = tuple(sorted(k1 + k2))
+                                        o_[k_] = o_.get(k_, 0) + v1 * v2
+                                return {k_: v_ for k_, v_ in o_.items() if v_}
+                            if isinstance(e, (ast.Name, ast.Call, ast.Attribute)):
+                                return {(ast.unparse(e).replace(' ', ''),): 1}
+                            return None
+
+                        def psub(x_, y_, c_=0):
+                            o_ = dict(x_)
+                            for k_, v_ in y_.items():
+                                o_[k_] = o_.get(k_, 0) - v_
+                            o_[()] = o_.get((), 0) + c_
+                            return {k_: v_ for k_, v_ in o_.items() if v_}
+                        ra = [_rl(P, u, x, keep=(I,)) for x in f.iter.args]
+                        pA = {} if len(ra) < 2 else poly(ra[0])
+                        pB = poly(ra[0] if len(ra) == 1 else ra[1])
+                        pS = {(): 1} if len(ra) < 3 else poly(ra[2])
+                        fl = _rl(P, u, flag, keep=(I,))
+                        L_, R_ = poly(fl.left), poly(fl.comparators[0])
+                        if None not in (pA, pB, pS, L_, R_):
+                            want = psub(psub({(I,): 1}, {k_: -v_ for k_, v_ in pS.items()}), pB)       # I + S - B  (>= 0 on the last round)
+                            op = fl.ops[0]
                             D = None
                             if isinstance(op, ast.GtE):
-                                D = sub(L_, R_)
+                                D = psub(L_, R_)
                             elif isinstance(op, ast.Gt):
-                                D = sub(L_, R_, -1)
+                                D = psub(L_, R_, -1)
                             elif isinstance(op, ast.LtE):
-                                D = sub(R_, L_)
+                                D = psub(R_, L_)
                             elif isinstance(op, ast.Lt):
-                                D = sub(R_, L_, -1)
-                            want = sub(sub({I: 1}, {k_: -v_ for k_, v_ in eS.items()}), eL)
-                            if D is not None and set(D) - {''} == set(want) - {''}:
+                                D = psub(R_, L_, -1)
+                            if D is not None and any(I in k_ for k_ in D):
                                 ok = D == want
+                            elif isinstance(op, ast.Eq):
+                                E_ = psub(L_, R_)
+                                neg = {k_: -v_ for k_, v_ in E_.items()}
+                                if any(I in k_ for k_ in E_):
+                                    # exact only when the range ends on a multiple of the step: B - A = (something) * S syntactically
+                                    span = psub(pB, pA)
+                                    if pS == {(): 1}:
+                                        multiple = True
+                                    elif len(pS) == 1 and list(pS.values()) == [1]:
+                                        sm = list(pS)[0]
+                                        multiple = bool(span) and all(all(k_.count(a_) >= sm.count(a_) for a_ in sm) for k_ in span)
+                                    else:
+                                        multiple = False
+                                    ok = (E_ == want or neg == want) and multiple
                     if ok is None:
                         raise AnalysisError('R-CHUNK-LAST: is-last expression `%s` of %s not recognised' % (ast.unparse(flag), u.qual))
                     rr.ob(ctx.where(u, y), 'the is-last flag `%s` is true exactly on the last iteration of the chunk loop' % ast.unparse(flag), ok=ok)
